@@ -91,6 +91,15 @@ def run(res):
                         good = mm is not None
                 else:
                     good = True
+            elif c == "expr-span":
+                # a compound expression: its sub-expressions and its own tokens lie inside its location
+                for ch in l.get("children", []):
+                    ca = m1.get((ch[0], ch[1]))
+                    cb = m1.get((ch[2], ch[3]))
+                    if ca is None or cb is None or ca < a or cb > b:
+                        viol("a part at %s of the compound expression %r lies outside the expression's location %s" % (ch, text, l["loc"]),
+                             {"src": src, "node": l, "part": ch})
+                        break
             elif c == "lit-num":
                 good = len(text) >= 1 and (text[0].isdigit() or text[0] == ".")
             elif c == "static-value":
